@@ -28,23 +28,24 @@ import (
 // ---------------------------------------------------------------- network
 
 type Call struct {
-	ID        int
-	From, To  uint64
-	Kind      string // AE RV IS
-	AE        *raft.AppendEntriesRequest
-	RV        *raft.RequestVoteRequest
-	IS        *raft.InstallSnapshotRequest
-	AER       raft.AppendEntriesResponse
-	RVR       raft.RequestVoteResponse
-	ISR       raft.InstallSnapshotResponse
-	Delivered bool
-	HErr      error
-	Created   time.Time
+	ID          int
+	From, To    uint64
+	Kind        string // AE RV IS
+	AE          *raft.AppendEntriesRequest
+	RV          *raft.RequestVoteRequest
+	IS          *raft.InstallSnapshotRequest
+	AER         raft.AppendEntriesResponse
+	RVR         raft.RequestVoteResponse
+	ISR         raft.InstallSnapshotResponse
+	Delivered   bool
+	HErr        error
+	Created     time.Time
 	DeliveredAt time.Time
-	FromInc   int
-	done      chan error
+	FromInc     int
+	done        chan error
 	handlerDone chan struct{}
-	answered  bool
+	answered    bool
+	callee      *SimTransport
 }
 
 func (c *Call) Term() uint64 {
@@ -186,15 +187,16 @@ type Recorder struct {
 }
 
 type SimFSM struct {
-	mu       sync.Mutex
-	node     uint64
-	inc      int
-	instance int
-	st       FSMState
-	rec      *Recorder
-	detached bool
-	SnapEvery int // NeedSnapshot threshold on log size (0: never)
-	PadBytes  int // extra payload in snapshots
+	mu        sync.Mutex
+	node      uint64
+	inc       int
+	instance  int
+	st        FSMState
+	rec       *Recorder
+	detached  bool
+	SnapEvery int  // NeedSnapshot threshold on log size (0: never)
+	PadBytes  int  // extra payload in snapshots
+	Lenient   bool // Restore accepts arbitrary bytes (handler-level engines use synthetic snapshot content)
 	// gates: when non-nil the call parks until the scheduler sends on it
 	GateApply, GateSnapshot, GateRestore chan struct{}
 	Parked                               []string
@@ -281,7 +283,10 @@ func (f *SimFSM) Restore(r io.Reader) error {
 	}
 	var st FSMState
 	if err := json.Unmarshal(data, &st); err != nil {
-		return fmt.Errorf("snapshot content does not parse (%d bytes): %w", len(data), err)
+		if !f.Lenient {
+			return fmt.Errorf("snapshot content does not parse (%d bytes): %w", len(data), err)
+		}
+		st = FSMState{}
 	}
 	st.Pad = nil
 	f.mu.Lock()
@@ -321,16 +326,17 @@ func sleepToResidue(r int64) {
 // ---------------------------------------------------------------- nodes
 
 type SimNode struct {
-	ID    uint64
-	Inc   int
-	Dir   string
-	R     *raft.Raft
-	Tr    *SimTransport
-	FSM   *SimFSM
-	Rec   *Rec
-	RawLog raft.Log
-	Up    bool
+	ID         uint64
+	Inc        int
+	Dir        string
+	R          *raft.Raft
+	Tr         *SimTransport
+	FSM        *SimFSM
+	Rec        *Rec
+	RawLog     raft.Log
+	Up         bool
 	StorageOps int
+	TripImg    string
 }
 
 type SimOpts struct {
@@ -340,16 +346,16 @@ type SimOpts struct {
 }
 
 type Sim struct {
-	Root   string
-	Net    *Net
-	Nodes  map[uint64]*SimNode
+	Root    string
+	Net     *Net
+	Nodes   map[uint64]*SimNode
 	Zombies []*SimNode
-	Recd   *Recorder
-	Opts   SimOpts
-	Cut    map[[2]uint64]bool // Cut[{from,to}]: calls from->to fail
-	Errors []string
+	Recd    *Recorder
+	Opts    SimOpts
+	Cut     map[[2]uint64]bool // Cut[{from,to}]: calls from->to fail
+	Errors  []string
 	Blocked []*Call
-	dirSeq int
+	dirSeq  int
 }
 
 func NewSim(root string, opts SimOpts) *Sim {
@@ -455,6 +461,82 @@ func (s *Sim) Crash(id uint64) string {
 	return img
 }
 
+// ArmCrash arms a crash point inside the node: its k-th next storage operation does not happen
+// before the directory image is taken, i.e. the node dies between two storage writes of one
+// critical section. The incarnation lives on as a cut-off zombie over its old directory.
+func (s *Sim) ArmCrash(id uint64, k int, kind string) {
+	n := s.Nodes[id]
+	s.dirSeq++
+	img := filepath.Join(s.Root, fmt.Sprintf("n%d-%d", id, s.dirSeq))
+	n.Rec.Arm(k, kind, func() {
+		copyDir(n.Dir, img)
+		n.TripImg = img
+		s.Net.mu.Lock()
+		n.Tr.dead = true
+		for _, c := range s.Net.All {
+			if c.From == id && c.FromInc == n.Inc && !c.answered {
+				c.answered = true
+				c.done <- errors.New("crashed")
+			}
+		}
+		s.Net.mu.Unlock()
+		n.FSM.mu.Lock()
+		n.FSM.detached = true
+		n.FSM.mu.Unlock()
+	})
+}
+
+// Disarm removes a crash point that has not fired.
+func (s *Sim) Disarm(id uint64) {
+	if n := s.Nodes[id]; n != nil {
+		n.Rec.Arm(0, "", nil)
+	}
+}
+
+// Tripped lists running nodes whose armed crash point has fired.
+func (s *Sim) Tripped() []uint64 {
+	var out []uint64
+	for _, id := range s.IDs() {
+		if s.Nodes[id].Rec.Tripped() {
+			out = append(out, id)
+		}
+	}
+	return out
+}
+
+// FinishTrip does the scheduler-side bookkeeping of a fired crash point and returns the image.
+func (s *Sim) FinishTrip(id uint64) string {
+	n := s.Nodes[id]
+	s.Net.mu.Lock()
+	n.Tr.ae, n.Tr.rv, n.Tr.is = nil, nil, nil
+	s.Net.mu.Unlock()
+	n.Up = false
+	s.Zombies = append(s.Zombies, n)
+	s.Take(func(c *Call) bool { return c.From == id && c.FromInc == n.Inc })
+	go n.R.Stop()
+	synctest.Wait()
+	delete(s.Nodes, id)
+	return n.TripImg
+}
+
+// LogOfDir reads the log of a directory image the way a restart would (Open + Replay).
+func LogOfDir(dir string) (out LogSt) {
+	defer func() { recover() }()
+	l, err := raft.NewLog(dir)
+	if err != nil {
+		return
+	}
+	if err := l.Open(); err != nil {
+		return
+	}
+	defer l.Close()
+	if err := l.Replay(); err != nil {
+		return
+	}
+	n := &SimNode{RawLog: l}
+	return n.LogOf()
+}
+
 // Restart builds a new incarnation over an image.
 func (s *Sim) Restart(id uint64, img string, inc int) error {
 	n, err := s.Boot(id, img, inc, nil)
@@ -526,6 +608,7 @@ func (s *Sim) Deliver(c *Call) {
 		return
 	}
 	c.handlerDone = make(chan struct{})
+	c.callee = p
 	go func() {
 		defer close(c.handlerDone)
 		defer func() {
@@ -575,7 +658,15 @@ func (s *Sim) Reply(c *Call) {
 		return
 	}
 	c.answered = true
-	c.done <- c.HErr
+	s.Net.mu.Lock()
+	dead := c.callee != nil && c.callee.dead
+	s.Net.mu.Unlock()
+	if dead {
+		// the callee crashed before its answer left: the answer is lost
+		c.done <- errors.New("peer crashed")
+	} else {
+		c.done <- c.HErr
+	}
 	synctest.Wait()
 }
 
